@@ -172,7 +172,7 @@ class HsSim(SimNet):
             self.in_flight += 1
             self._push(self.now + delay, "deliver", (rec, False, False))
 
-    def _ensure_server(self, first_datagram: bytes):
+    def _ensure_server(self, first_datagram: bytes, src=None):
         """What aioquic.asyncio.server.QuicServer.datagram_received does before it has a connection."""
         from aioquic.buffer import Buffer
         from aioquic.quic.connection import QuicConnection
